@@ -2,7 +2,6 @@ use crate::{
     eval::{eval, funcall, DummyEval},
     list, lists, Error, TulispContext, TulispObject,
 };
-use std::cmp::Ordering;
 use tulisp_proc_macros::crate_fn;
 
 pub(crate) fn add(ctx: &mut TulispContext) {
@@ -66,26 +65,42 @@ pub(crate) fn add(ctx: &mut TulispContext) {
         pred: TulispObject,
     ) -> Result<TulispObject, Error> {
         let pred = eval(ctx, &pred)?;
-        let mut vec: Vec<_> = seq.base_iter().collect();
-        let mut err = None;
-        vec.sort_by(|v1, v2| {
-            if funcall::<DummyEval>(ctx, &pred, &list!(v1.clone(), v2.clone()).unwrap())
-                .map(|v| v.null())
-                .unwrap_or_else(|x| {
-                    err = Some(x);
-                    false
-                })
-            {
-                Ordering::Less
-            } else {
-                Ordering::Greater
+        let vec: Vec<_> = seq.base_iter().collect();
+
+        // A stable merge sort that is driven by `pred` alone: `(pred a b)`
+        // non-nil means that `a` has to come before `b`.  Whatever `pred`
+        // answers, the result is a permutation of the input, and an error
+        // raised by `pred` is returned as it is.
+        fn merge_sort(
+            ctx: &mut TulispContext,
+            pred: &TulispObject,
+            mut left: Vec<TulispObject>,
+        ) -> Result<Vec<TulispObject>, Error> {
+            if left.len() < 2 {
+                return Ok(left);
             }
-        });
-        if let Some(err) = err {
-            return Err(err);
+            let right = left.split_off((left.len() + 1) / 2);
+            let right = merge_sort(ctx, pred, right)?;
+            let left = merge_sort(ctx, pred, left)?;
+            let mut merged = Vec::with_capacity(left.len() + right.len());
+            let mut left = left.into_iter().peekable();
+            let mut right = right.into_iter().peekable();
+            while let (Some(l), Some(r)) = (left.peek(), right.peek()) {
+                // Take from the right only when it is strictly before the left.
+                if funcall::<DummyEval>(ctx, pred, &list!(r.clone(), l.clone())?)?.is_truthy() {
+                    merged.extend(right.next());
+                } else {
+                    merged.extend(left.next());
+                }
+            }
+            merged.extend(left);
+            merged.extend(right);
+            Ok(merged)
         }
+        let vec = merge_sort(ctx, &pred, vec)?;
         let ret = vec
             .iter()
+            .rev()
             .fold(TulispObject::nil(), |v1, v2| TulispObject::cons(v2.clone(), v1));
         Ok(ret)
     }
